@@ -110,6 +110,8 @@ class Gen(object):
         for g in ctx["frames"]:
             if g not in self.drop:
                 out.append(("{x} of frame %s" % self.n[g], ("rel", F + [g])))
+                out.append(("frame.%s.{x}" % self.n[g], ("rel", F + [g])))
+                out.append(("{x} of frame %s of framer" % self.n[g], ("rel", F + [g])))
                 out.append(("{x} of actor of frame %s" % self.n[g], ("rel", F + [g])))
         if ctx.get("MF"):
             MF, Mf = [tuple(ctx["MF"])], [ctx["Mf"]]
@@ -181,7 +183,7 @@ class Gen(object):
             L.append("    put 1 into %s" % tmpl.format(x=x))
         L.append("framer %s be moot first %s%s" % (n["fmoot"], n["mone"], via(ino["M"])))
         L.append("  frame %s" % n["mone"])
-        self.acts(dict(F=["fmain", "fclo"], f="mone", MF=["fmain"], Mf="fsub", frames=[]), 4, "mact")
+        self.acts(dict(F=["fmain", "fclo"], f="mone", MF=["fmain"], Mf="fsub", frames=["mone"]), 4, "mact")
         return "\n".join(L) + "\n"
 
 
@@ -326,6 +328,24 @@ def h_words(sym, ent, maxwords):
     return True
 
 
+# frame names that are not the words `me` / `main` but look like them to a sloppy test (substrings, prefixes)
+SHORT = ["a", "m", "n", "ai", "main2", "mainline"]
+FRAME_ENTS = [e for e in ENTITIES if KIND[e] == "frame"]
+
+
+def h_short(sym, ent):
+    """a frame (of an ordinary framer or of the moot framer cloned as aux) gets a short / main-like name; the
+    program addresses it by name (`x of frame <name> [of framer]`, inline `frame.<name>.x`)"""
+    ci = sym.choice("cfg", len(WORD_CFGS))
+    ni = fb.pick(sym, "new", len(SHORT))
+    with fb.notrace(sym):
+        res = check_pair(sym, ent, SHORT[ni], WORD_CFGS[ci], ("w", ci), False)
+    if res is not None:
+        sym.fail(res[0].replace("/fresh-name/", "/short-name/"), res[1])
+    sym.cover("renamed-consistently")
+    return True
+
+
 def h_nametopath(sym, maxwords):
     """ioflo.aid.aiding.nameToPath on the camel case name of a symbolic word sequence: one lower case node per
     word ('uppercase letters denote intermediate nodes in path. Node path ends in dot')"""
@@ -394,6 +414,9 @@ def obligations(tier):
                       covers=["renamed-consistently"],
                       bounds=dict(entity=ent, kind="actor", new_name="1..%d words from %r" % (mw, WORDS),
                                   inode_configurations=len(WORD_CFGS))))
+    for ent in FRAME_ENTS:
+        out.append(Ob("shortname/" + ent, h_short, dict(ent=ent), budget=300, per_path=60, covers=["renamed-consistently"],
+                      bounds=dict(entity=ent, kind="frame", new_names=SHORT, inode_configurations=len(WORD_CFGS))))
     out.append(Ob("nametopath", h_nametopath, dict(maxwords=mw + 1), budget=300, per_path=60,
                   covers=["renamed-consistently"], bounds=dict(words=WORDS, name="camel case of 1..%d words" % (mw + 1))))
     for ent in ENTITIES:
